@@ -47,5 +47,19 @@ fn main() {
         .method(m("sayhello", "Say", JSON, false))
         .method(m("z9", "say_hello", BIN, false))
         .build();
-    Builder::new().out_dir(&out).compile(&[s1, s2, s3]);
+    // S4: message types that accept JSON `null` (Option<..>): an empty payload is still not a message
+    let s4 = Service::builder()
+        .name("Maybe")
+        .package("opt")
+        .method(
+            Method::builder()
+                .name("maybe")
+                .route_name("Maybe")
+                .request_type("Option<crate::props::c17::Msg>")
+                .response_type("Option<crate::props::c17::Msg>")
+                .codec_path(JSON)
+                .build(),
+        )
+        .build();
+    Builder::new().out_dir(&out).compile(&[s1, s2, s3, s4]);
 }
